@@ -211,6 +211,9 @@ impl RecCtx<'_> {
                 trace: None,
                 counts: BTreeMap::new(),
                 next_seq: 0,
+                sync_obs: BTreeMap::new(),
+                sync_errors: vec![],
+                be_violations: vec![],
             };
             for (k, (id, snap)) in cp.psp.iter().enumerate() {
                 w.psp.insert(
